@@ -47,6 +47,7 @@ _LNODE = "phi(P:previous_node_class|P:previous_node_class.outgoing_logic[0])"
 _PAIR = f"P:puml_graph.create_operator_node_pair({_LNODE}.get_operator_type())"
 _ROT = "P:logic_list[USub(1)].rotate_path(P:previous_node_class," \
        "P:previous_puml_node)"
+_LEAVES = "chain(*[get_node_as_list(each(P:paths_to_check)) for..])"
 _NO_LONELY = ("cmp", "P:logic_block_holder.lonely_merge_index", "Is", "None",
               "1")
 _LB_UNDECIDED = ("any", (
@@ -229,6 +230,19 @@ TABLE: dict[str, list[tuple]] = {
          [_NO_LONELY, _LB_UNDECIDED,
           ("truth", "P:logic_block_holder.loop_kill_paths[USub(1)]", "0")],
          [], ""),
+    ],
+    "check_has_valid_merge": [
+        ("the node is a merge node when SOME leaf of the sibling paths (every "
+         "leaf is examined until one is found) reaches it through a "
+         "predecessor without outgoing logic", "ret", "", "", ("True",),
+         [("cmp", "P:node", "Eq", f"first({_LEAVES})", "0"),
+          ("truth", f"has_path(P:node_class_graph,first({_LEAVES}),P:node)",
+           "1"),
+          ("truth", f"has_path(P:node_class_graph,first({_LEAVES}),first("
+           "P:node_class_graph.in_edges(P:node))[0])", "1"),
+          ("truth", "first(P:node_class_graph.in_edges(P:node))[0]."
+           "outgoing_logic", "0")], [], ""),
+        ("and only then", "ret", "", "", ("False",), [], [], ""),
     ],
     "LogicBlockHolder._check_merge_is_correct": [
         ("XOR blocks merge wherever their paths meet", "ret", "", "",
